@@ -44,6 +44,7 @@ type root struct {
 	notes      map[string]bool
 	lateGhost  map[string]bool
 	localAddrs []*Term
+	measure *Term // value of the contract's termination measure at function entry
 	caseSplits []*Term // conditions to split every later obligation on (proof by cases)
 	localRanges [][2]*Term // typed backing arrays allocated by this activation (start, bytes)
 	knownRanges [][2]*Term // typed slices seen so far (backing array start, bytes): memory that exists before later allocations
